@@ -4,6 +4,7 @@ import (
 	"fmt"
 	"math/big"
 	"strings"
+	"tsim/genfault"
 
 	ics23 "github.com/confio/ics23/go"
 	ibccommitment "github.com/cosmos/ibc-go/v3/modules/core/23-commitment/types"
@@ -464,6 +465,7 @@ func (w *world) opExport(op kernel.Op) {
 	if c.InBlock || c.Halted != "" {
 		return
 	}
+	genfault.Run(w.rec, c.Chain, int64(c.Height)+op.Arg(1))
 	issues := c.ModuleRoundTrip()
 	w.rec.Fault("node.export_roundtrip")
 	w.rec.Logf("export round trip on %s: %d issues", c.Cfg.Name, len(issues))
